@@ -1,10 +1,156 @@
+// rv — runtime verification driver for etcd-io/raft (see /verif/DESIGN.md).
 package main
 
 import (
+	"encoding/json"
+	"flag"
 	"fmt"
+	"os"
+	"strconv"
+	"strings"
 
-	_ "github.com/anishathalye/porcupine"
-	"go.etcd.io/raft/v3"
+	"verif/sim"
 )
 
-func main() { fmt.Println(raft.None) }
+func usage() {
+	fmt.Fprintln(os.Stderr, `usage: rv <command> [flags]
+  sim        -prop Cxx -tier quick|thorough     simulator campaign for one property
+  child      (internal) one batch of worlds
+  world      -prop Cxx -idx N [-v]              run a single world
+  replay     <trace.json> [-v] [-until N]       re-execute a recorded action trace
+  quorum | confchange | logmodel | determinism  dedicated drivers
+  version`)
+	os.Exit(2)
+}
+
+func envSeed() int64 {
+	if s := os.Getenv("VERIF_SEED"); s != "" {
+		if v, err := strconv.ParseInt(strings.TrimSpace(s), 10, 64); err == nil {
+			return v
+		}
+	}
+	return 1
+}
+
+func verifDir() string {
+	if d := os.Getenv("VERIF_DIR"); d != "" {
+		return d
+	}
+	return "/verif"
+}
+
+func loadKnown() {
+	b, err := os.ReadFile(verifDir() + "/known_findings.json")
+	if err != nil {
+		return
+	}
+	var kf struct {
+		Open []struct {
+			ID string `json:"id"`
+		} `json:"open"`
+	}
+	if json.Unmarshal(b, &kf) == nil {
+		for _, o := range kf.Open {
+			sim.KnownFindings[o.ID] = true
+		}
+	}
+}
+
+func main() {
+	if len(os.Args) < 2 {
+		usage()
+	}
+	loadKnown()
+	cmd, args := os.Args[1], os.Args[2:]
+	switch cmd {
+	case "version":
+		fmt.Println("rv 1")
+	case "sim":
+		os.Exit(cmdSim(args))
+	case "child":
+		os.Exit(cmdChild(args))
+	case "world":
+		os.Exit(cmdWorld(args))
+	case "replay":
+		os.Exit(cmdReplay(args))
+	case "quorum":
+		os.Exit(cmdQuorum(args))
+	case "confchange":
+		os.Exit(cmdConfChange(args))
+	case "logmodel":
+		os.Exit(cmdLogModel(args))
+	case "determinism":
+		os.Exit(cmdDeterminism(args))
+	default:
+		usage()
+	}
+}
+
+func cmdWorld(args []string) int {
+	fs := flag.NewFlagSet("world", flag.ExitOnError)
+	prop := fs.String("prop", "C14", "")
+	idx := fs.Int("idx", 0, "")
+	steps := fs.Int("steps", 2500, "")
+	seed := fs.Int64("seed", envSeed(), "")
+	verbose := fs.Bool("v", false, "")
+	tail := fs.Int("tail", 400, "")
+	out := fs.String("trace", "", "write the action trace here")
+	fs.Parse(args)
+	cfg := sim.GenWorld(*seed, *prop, *idx, *steps)
+	w, herr := sim.RunWorld(cfg, *verbose)
+	return reportWorld(w, herr, *verbose, *tail, *out, *idx)
+}
+
+func reportWorld(w *sim.World, herr string, verbose bool, tail int, out string, idx int) int {
+	if herr != "" {
+		fmt.Println("HARNESS ERROR:", herr)
+		return 2
+	}
+	if verbose {
+		from := max(0, len(w.Log)-tail)
+		for _, l := range w.Log[from:] {
+			fmt.Println("   ", l)
+		}
+	}
+	cb, _ := json.Marshal(w.Cfg)
+	fmt.Printf("cfg: %s\n", cb)
+	sb, _ := json.Marshal(w.Stats)
+	fmt.Printf("stats: %s\n", sb)
+	for _, s := range w.Inconclusive {
+		fmt.Println("INCONCLUSIVE:", s)
+	}
+	if out != "" {
+		if err := w.WriteTrace(out, idx); err != nil {
+			fmt.Println("trace:", err)
+		}
+	}
+	rc := 0
+	for _, v := range w.Viol {
+		if v.Known != "" {
+			fmt.Printf("KNOWN-FINDING: property=%s %s | %s\n", v.Prop, v.Known, v.Msg)
+		} else {
+			fmt.Printf("VIOLATION property=%s step=%d also=%v: %s\n", v.Prop, v.Step, v.Also, v.Msg)
+			rc = 1
+		}
+	}
+	fmt.Printf("digest %s steps %d\n", w.Digest()[:16], len(w.Trace))
+	return rc
+}
+
+func cmdReplay(args []string) int {
+	fs := flag.NewFlagSet("replay", flag.ExitOnError)
+	verbose := fs.Bool("v", false, "")
+	tail := fs.Int("tail", 400, "")
+	until := fs.Int("until", 0, "")
+	fs.Parse(args)
+	if fs.NArg() < 1 {
+		usage()
+	}
+	tf, err := sim.ReadTrace(fs.Arg(0))
+	if err != nil {
+		fmt.Println(err)
+		return 2
+	}
+	w, herr := sim.ReplayWorld(tf, *verbose, *until)
+	return reportWorld(w, herr, *verbose, *tail, "", tf.Idx)
+}
